@@ -531,7 +531,11 @@ func (r *FeatureLocal) RemoveRemoteSubscription(remoteAddress *model.FeatureAddr
 
 // Remove all subscriptions to remote features
 func (r *FeatureLocal) RemoveAllRemoteSubscriptions() {
-	for _, item := range r.subscriptions {
+	r.mux.Lock()
+	subscriptions := r.subscriptions
+	r.mux.Unlock()
+
+	for _, item := range subscriptions {
 		_, _ = r.RemoveRemoteSubscription(item)
 	}
 }
@@ -611,7 +615,11 @@ func (r *FeatureLocal) RemoveRemoteBinding(remoteAddress *model.FeatureAddressTy
 
 // Remove all subscriptions to remote features
 func (r *FeatureLocal) RemoveAllRemoteBindings() {
-	for _, item := range r.bindings {
+	r.mux.Lock()
+	bindings := r.bindings
+	r.mux.Unlock()
+
+	for _, item := range bindings {
 		_, _ = r.RemoveRemoteBinding(item)
 	}
 }
